@@ -2,6 +2,7 @@ package main
 
 import (
 	"fmt"
+	"go/ast"
 	"go/types"
 	"sort"
 	"strings"
@@ -35,10 +36,13 @@ type Addr struct {
 type State struct {
 	m  map[string]string // state key -> SMT term (missing = entry symbol)
 	pc string            // path condition (name of a defined Bool, or a term)
+	// dflt: suffix of the symbol a key that is not in m denotes. "" = the entry symbol; after a call with
+	// unknown effects ("whole heap havocked") a fresh suffix, so that keys first mentioned LATER are havocked too.
+	dflt string
 }
 
 func (s *State) clone() *State {
-	n := &State{m: make(map[string]string, len(s.m)), pc: s.pc}
+	n := &State{m: make(map[string]string, len(s.m)), pc: s.pc, dflt: s.dflt}
 	for k, v := range s.m {
 		n.m[k] = v
 	}
@@ -46,22 +50,22 @@ func (s *State) clone() *State {
 }
 
 type Obligation struct {
-	Name    string
-	Class   string
-	Unit    *Unit
-	Fn      string
-	Pos     string
-	Text    string // human readable goal
-	PC      string
-	Goal    string
-	DefsEnd int // number of defs visible
-	vc      *FnVC
-	Result  SolverResult
-	Status  string // discharged | failed | undecided
-	Cover   bool   // vacuity cover query: must be SAT
+	Name      string
+	Class     string
+	Unit      *Unit
+	Fn        string
+	Pos       string
+	Text      string // human readable goal
+	PC        string
+	Goal      string
+	DefsEnd   int // number of defs visible
+	vc        *FnVC
+	Result    SolverResult
+	Status    string // discharged | failed | undecided
+	Cover     bool   // vacuity cover query: must be SAT
 	Candidate string
-	Rets    []*Val // post obligations: the values returned on this path
-	Raw     string // complete SMT script (obligations not generated from a function body); unsat = discharged
+	Rets      []*Val // post obligations: the values returned on this path
+	Raw       string // complete SMT script (obligations not generated from a function body); unsat = discharged
 }
 
 // KeyInfo describes one state key.
@@ -74,54 +78,55 @@ type KeyInfo struct {
 
 // FnVC generates verification conditions for one function.
 type FnVC struct {
-	G        *Global
-	fn       *ssa.Function
-	unit     *Unit
-	decls    []string
-	declSet  map[string]bool
-	defs     []string
-	obls     []*Obligation
-	vals     map[ssa.Value]*Val
-	fresh    int
-	keys     map[string]*KeyInfo
-	entry    *State
-	outState map[*ssa.BasicBlock]*State
-	edgePC   map[[2]int]string
-	edgeSt   map[[2]int]*State
-	loops    map[*ssa.BasicBlock]*loopInfo
-	loopOrd  map[*ssa.BasicBlock]int
-	notes    []string // approximations made (havoc of unsupported things)
-	outside  []string // reasons the function is outside the subset
-	oblNames map[string]int
-	strConst map[string]string
-	params   map[string]*Val
-	retVals  [][]*Val
-	usedSub  bool
-	usedCat  bool
-	debugVal map[types.Object][]debugBinding
-	deferred []*ssa.Defer
-	ghostLog []string
-	curBlock *ssa.BasicBlock
-	curInstr ssa.Instruction
-	houdini  map[*ssa.BasicBlock][]Clause
+	G            *Global
+	fn           *ssa.Function
+	unit         *Unit
+	decls        []string
+	declSet      map[string]bool
+	dfltN        int
+	defs         []string
+	obls         []*Obligation
+	vals         map[ssa.Value]*Val
+	fresh        int
+	keys         map[string]*KeyInfo
+	entry        *State
+	outState     map[*ssa.BasicBlock]*State
+	edgePC       map[[2]int]string
+	edgeSt       map[[2]int]*State
+	loops        map[*ssa.BasicBlock]*loopInfo
+	loopOrd      map[*ssa.BasicBlock]int
+	notes        []string // approximations made (havoc of unsupported things)
+	outside      []string // reasons the function is outside the subset
+	oblNames     map[string]int
+	strConst     map[string]string
+	params       map[string]*Val
+	retVals      [][]*Val
+	usedSub      bool
+	usedCat      bool
+	debugVal     map[types.Object][]debugBinding
+	deferred     []*ssa.Defer
+	ghostLog     []string
+	curBlock     *ssa.BasicBlock
+	curInstr     ssa.Instruction
+	houdini      map[*ssa.BasicBlock][]Clause
 	houdiniByOrd map[int][]Clause
-	inferOnly bool
-	axiomDefs []string
-	factDefs  map[int]string
-	implPreds map[string]types.Type
-	defIndex  map[string]int
-	defIndexed int
-	idxMu     sync.Mutex
-	usedOfArr bool
-	usedExtQ  bool
-	usedSpecs map[string]bool
-	arrSlices map[string]arrSlice
-	localKeys map[string]string
-	loopFresh map[string]bool
-	owned     []string // refs of objects owned by the function (see ownedValue)
-	inLoopHavoc bool
-	atDone    map[string]bool
-	atUsed    []string
+	inferOnly    bool
+	axiomDefs    []string
+	factDefs     map[int]string
+	implPreds    map[string]types.Type
+	defIndex     map[string]int
+	defIndexed   int
+	idxMu        sync.Mutex
+	usedOfArr    bool
+	usedExtQ     bool
+	usedSpecs    map[string]bool
+	arrSlices    map[string]arrSlice
+	localKeys    map[string]string
+	loopFresh    map[string]bool
+	owned        []string // refs of objects owned by the function (see ownedValue)
+	inLoopHavoc  bool
+	atDone       map[string]bool
+	atUsed       []string
 }
 
 type arrSlice struct{ arr, lo string }
@@ -141,6 +146,8 @@ type loopInfo struct {
 	spec     *LoopSpec
 	headSt   *State
 	phiVals  map[string]*Val
+	ast      ast.Node
+	astDone  bool
 	preState *State // merged state from entry edges
 	decr0    string
 }
@@ -410,7 +417,56 @@ func (vc *FnVC) get(st *State, key string) string {
 	if t, ok := st.m[key]; ok {
 		return t
 	}
+	if st.dflt != "" {
+		if ki := vc.keys[key]; ki != nil && ki.Kind != "local" && ki.Kind != "iter" && ki.Kind != "alloc" {
+			n := sanitize(key) + st.dflt
+			vc.declare(n, ki.Sort)
+			return n
+		}
+	}
 	return entrySym(key)
+}
+
+// havocAll makes every key that has no explicit value in st (in particular keys mentioned later for the first
+// time) denote a fresh unconstrained symbol.
+func (vc *FnVC) havocAll(st *State) {
+	vc.dfltN++
+	st.dflt = fmt.Sprintf("~all%d", vc.dfltN)
+}
+
+// ensureKey creates the state key k if it can be created from global information (registered field/global
+// keys, ghost variables, ghost fields); reports whether it exists afterwards.
+func (vc *FnVC) ensureKey(k string) bool {
+	if vc.keys[k] != nil {
+		return true
+	}
+	if ki := vc.G.keyInfo(k); ki != nil {
+		vc.keyFrom(ki)
+		return true
+	}
+	if strings.HasPrefix(k, "gh!") {
+		if g, ok := vc.G.C.Ghosts[k[3:]]; ok {
+			env := vc.envAt(vc.entry, nil)
+			if t, err := env.parseType(g.Type); err == nil {
+				vc.key(k, sortOf(t), "ghost")
+				return true
+			}
+		}
+		return false
+	}
+	if strings.HasPrefix(k, "F!") && strings.Contains(k, "!$") {
+		for _, m := range vc.G.C.GhostFields {
+			for _, gf := range m {
+				if gf.key() == k {
+					env := vc.envAt(vc.entry, nil)
+					if _, _, err := vc.ghostFieldKey(env, gf); err == nil {
+						return true
+					}
+				}
+			}
+		}
+	}
+	return false
 }
 
 func (vc *FnVC) set(st *State, key, term string) {
